@@ -128,10 +128,13 @@ def run_check(prop, tier="quick", replay=None):
         except Exception as e:
             ctx.note("self-test could not run: %s" % e)
     known = load_known()
-    known_keys = {(k["property"], k["key"]): k for k in known.get("known", [])}
+    def norm_key(k):
+        # the name a local variable happens to have is not part of a finding's identity (`park@sink:local:si` == `park@sink:local:rejected`)
+        return re.sub(r"local:[A-Za-z_][A-Za-z0-9_]*", "local:*", k)
+    known_keys = {(k["property"], norm_key(k["key"])): k for k in known.get("known", [])}
     violations, knowns = [], []
     for f in ctx.findings:
-        k = known_keys.get((f.prop, f.key))
+        k = known_keys.get((f.prop, norm_key(f.key)))
         if k is not None:
             knowns.append(f)
         else:
